@@ -367,13 +367,26 @@ def eval_cases(rng, n_ctx, per_ctx):
             exprs.append(talgen.gen_expr(rng, sc, None, 0, EVAL_PY if rng.random() < 0.5 else None))
         exprs += ["python:1+1", "not:python:s1", "nope | python:'x'", "string:a ${python:1+1} b", "exists:nope | python:1",
                   "string:$s1 ${l1/0} $$ $nope/x ${", "not:", "exists:", "", "string:", "path: s1 |  t1", "nocall:f1", "f1",
-                  "not:default", "not:nothing", "s1|", "|s1", "string:$", "string:${s1", "string:$ x"]
+                  "not:default", "not:nothing", "s1|", "|s1", "string:$", "string:${s1", "string:$ x",
+                  "nocall:s1 | string:x", "exists:s1 | nope", "nocall: s1 |t1", "exists:nope | s1", "nocall:nope | s1",
+                  "nocall:f2/k | string:x", "exists:d3/fn/k | nothing", "not:exists:s1 | nope", "string:${nocall:s1 | t1}"]
         out.append({"allow": i % 2, "ctx": ctx, "exprs": exprs})
     return out
 
 
+def probe_eval_variant():
+    """is the first alternative of `nocall:a | b` / `exists:a | b` stripped (repaired) or handed to traversePath with its
+    trailing blank (pinned, finding exists-nocall-first-alternative)?  Selects the variant of Model/TALESEval.v"""
+    res = impl_run_parallel([{"op": "tal_eval", "cases": [{"allow": 0, "ctx": {"s1": ["s", "v"]}, "exprs": ["nocall:s1 | string:x"]}]}])
+    if not res[0]["ok"]:
+        raise RuntimeError(res[0]["err"])
+    rr = res[0]["res"][0][0]
+    return bool(rr.get("res")) and rr["res"][0] == "v"
+
+
 def k_eval(prop, name, cases, shard=400):
     """runs the real Context.evaluate (traversals and python evaluations recorded) and the model in Coq"""
+    strip1 = probe_eval_variant()
     res = impl_run_parallel([{"op": "tal_eval", "cases": cases[i:i + 8]} for i in range(0, len(cases), 8)])
     lits, src, skipped = [], [], 0
     k = 0
@@ -390,7 +403,7 @@ def k_eval(prop, name, cases, shard=400):
                 tr = tlist(("((%s, %s), %s)" % (coq_s(p), coq_bool(c), coq_opt_cval(v)) for p, c, v in rr["trav"]),
                            "(str * bool) * option cval")
                 pt = tlist(("(%s, %s)" % (coq_s(e), coq_cval(v)) for e, v in rr["py"]), "str * cval")
-                lits.append("(((%s, %s), (%s, %s)), (%s, %d%%nat))" % (coq_bool(case["allow"]), coq_s(expr), tr, pt,
+                lits.append("((((%s, %s), %s), (%s, %s)), (%s, %d%%nat))" % (coq_bool(strip1), coq_bool(case["allow"]), coq_s(expr), tr, pt,
                                                                    coq_opt_cval(rr["res"]), rr["evals"]))
                 src.append({"expression": expr, "allow_python": case["allow"], "context": case["ctx"], "real": rr})
     mism, err, nsh = coq_eval(prop, name, K_IMPORTS, "chk_eval", lits, shard=shard, pre=K_PRE)
